@@ -108,7 +108,7 @@ public:
     String line(data.length() + 200);
     for(const char* p = lineFormat; *p; ++p)
     {
-      if(*p == '%')
+      if(*p == '%' && p[1])
       {
         ++p;
         switch(*p)
